@@ -109,14 +109,26 @@ def deck_bytes(name: str) -> bytes:
 _BASES: dict = {}
 
 
-def base_members(deck: str, rename: dict | None):
-    """(zip bytes, ordered members) of the deck, after the optional slide-part rename."""
-    key = (deck, tuple(sorted(rename.items())) if rename else None)
+FLIP_LABELS = {"ext-case": "Default", "name-case": "Override"}
+
+
+def base_members(deck: str, rename: dict | None, label: str | None = None):
+    """(zip bytes, ordered members) of the deck, after the optional part rename.
+
+    label in FLIP_LABELS: the rename is a case flip of a part NAME; [Content_Types].xml keeps the
+    declarations exactly as they were (that difference is the irregularity)."""
+    keep_ct = label in FLIP_LABELS
+    key = (deck, tuple(sorted(rename.items())) if rename else None, keep_ct)
     hit = _BASES.get(key)
     if hit is None:
         blob = deck_bytes(deck)
         if rename:
+            orig_ct = fx.zip_members(blob).get(CT_MEMBER)
             blob = fx.rename_members(blob, dict(rename))
+            if keep_ct:
+                m = fx.zip_members(blob)
+                m[CT_MEMBER] = orig_ct
+                blob = write_zip_stored(m)
         hit = (blob, fx.zip_members(blob))
         if len(_BASES) > 64:
             _BASES.clear()
@@ -177,6 +189,31 @@ def enum_renames(members: dict, max_slides=4):
                     mapping[old] = new
             if mapping:
                 out.append((label, mapping))
+    return out
+
+
+def enum_name_flips(members: dict):
+    """Case differences between a part NAME and its content-type declaration, per reachable part:
+    typed by a Default -> the name's extension is case-swapped (image1.png -> image1.PNG), the Default stays;
+    typed by an Override -> the whole part name is case-swapped, the Override's PartName stays.
+    Member, .rels item name and every relationship target follow the new name (fixtures.rename_members).
+    -> list of (label, mapping)"""
+    ref = opc_ref.RefPackage(clean_members(members))
+    out = []
+    for pn in ref.reachable():
+        ct, how = ref.content_type(pn)
+        if how == "default":
+            head, fn = pn.rsplit("/", 1)
+            stem, ext = fn.rsplit(".", 1)
+            new = "%s/%s.%s" % (head, stem, ext.swapcase())
+            label = "ext-case"
+        elif how == "override":
+            new = pn.swapcase()
+            label = "name-case"
+        else:
+            continue
+        if new != pn and new[1:] not in members:
+            out.append((label, {pn: new}))
     return out
 
 
@@ -385,7 +422,7 @@ def case_zip_bytes(case) -> tuple[bytes, dict]:
     An input without member-level faults is the deck's own bytes (or fixtures.rename_members' output).
     A faulted input is re-zipped: deflated (fixtures.write_zip) when it is going to be truncated, stored
     otherwise (cost)."""
-    blob, members = base_members(case["deck"], case.get("rename"))
+    blob, members = base_members(case["deck"], case.get("rename"), case.get("rename_label"))
     if case["faults"]:
         members = apply_faults(members, case["faults"])
         if case["form"] == "dir":
@@ -489,7 +526,8 @@ def kind_label(case) -> str:
     """fault=<...> part of a signature: kinds with their location class, sorted, '+'-joined."""
     atoms = []
     if case.get("rename"):
-        atoms.append("rename(%s)" % case.get("rename_label", "perm"))
+        label = case.get("rename_label", "perm")
+        atoms.append("name-flip(%s)" % FLIP_LABELS[label] if label in FLIP_LABELS else "rename(%s)" % label)
     for f in case["faults"]:
         atoms.append("%s(%s)" % (f["k"], f.get("cls", "")))
     bf = case.get("byte")
@@ -503,7 +541,7 @@ def kind_label(case) -> str:
 def kinds_only(case) -> str:
     atoms = []
     if case.get("rename"):
-        atoms.append("rename")
+        atoms.append("name-flip" if case.get("rename_label") in FLIP_LABELS else "rename")
     atoms += [f["k"] for f in case["faults"]]
     if case.get("byte"):
         atoms.append(case["byte"]["k"])
